@@ -150,6 +150,12 @@ class Grant(Item):
         else:
             self.token_map = token_map
 
+    def revoke(self):
+        """Revoking a grant also revokes every token that was issued under it."""
+        super().revoke()
+        for token in self.issued_token:
+            token.revoked = True
+
     def get_message(self) -> object:
         return GrantMessage(
             scope=self.scope,
